@@ -138,8 +138,15 @@ def mutants(args):
             shutil.rmtree(scratch, ignore_errors=True)
     subprocess.run(['git', '-C', '/repo', 'worktree', 'prune'], capture_output=True)
     os.makedirs(os.path.join(VERIF, 'evidence'), exist_ok=True)
+    path = os.path.join(VERIF, 'evidence', 'selftest-mutants.json')
     if not only:
-        json.dump({'kill_matrix': rows}, open(os.path.join(VERIF, 'evidence', 'selftest-mutants.json'), 'w'), indent=1)
+        json.dump({'kill_matrix': rows}, open(path, 'w'), indent=1)
+    elif os.path.exists(path) and not os.environ.get('VERIF_REPO'):
+        # a partial run (named mutants) refreshes their rows in the matrix of the last full run
+        old = json.load(open(path)).get('kill_matrix', [])
+        fresh = {r['mutant']: r for r in rows}
+        merged = [fresh.pop(r['mutant'], r) for r in old] + list(fresh.values())
+        json.dump({'kill_matrix': sorted(merged, key=lambda r: r['mutant'])}, open(path, 'w'), indent=1)
     surv = [r for r in rows if r['status'] != 'killed']
     print(f'MUTANTS total={len(rows)} killed={len(rows) - len(surv)} not_killed={[r["mutant"] for r in surv]}')
     return 0 if not surv else 1
